@@ -74,6 +74,10 @@ func (c13) Gen(r *rand.Rand, tier string, run int) *core.Case {
 		c.Params["broken"] = 1
 		c.Params["break_after"] = r.IntN(60)
 	}
+	if r.IntN(4) == 0 {
+		c.Params["sibling"] = 1
+		c.Params["sibling_after"] = r.IntN(80)
+	}
 	emit := func(n int) {
 		for i := 0; i < n; i++ {
 			c.Ops = append(c.Ops, core.Op{Kind: "emit", Actor: 50, X: int64(r.IntN(4)), Y: int64(r.IntN(4))})
@@ -314,6 +318,56 @@ func (c13) Run(c *core.Case, env *core.Env) {
 			env.Violate("setup/proxy", "%v", err)
 			return
 		}
+	}
+	if c.P("sibling", 0) == 1 {
+		// a second object of the service, with the same signals, watched from
+		// connection 0 and removed at some moment: what its subscribers are
+		// told is no business of the first object's subscribers
+		zzsim.SetNode("server")
+		sid, err := w.Svc.Add(probe.ProbeObject(&ProbeImpl{Env: env, Obj: 9}))
+		zzsim.SetNode("harness")
+		if err != nil {
+			env.Violate("setup/sibling", "%v", err)
+			return
+		}
+		sp, err := ProbeProxy(clients[0], w.ServiceID, sid)
+		if err != nil {
+			env.Violate("setup/sibling", "%v", err)
+			return
+		}
+		_, s1, e1 := sp.SubscribeTick()
+		_, s2, e2 := sp.SubscribeTock()
+		_, s3, e3 := sp.SubscribeLevel()
+		_, s4, e4 := sp.SubscribeNote()
+		if e1 != nil || e2 != nil || e3 != nil || e4 != nil {
+			env.Violate("setup/sibling", "%v %v %v %v", e1, e2, e3, e4)
+			return
+		}
+		go func() {
+			for range s1 {
+			}
+		}()
+		go func() {
+			for range s2 {
+			}
+		}()
+		go func() {
+			for range s3 {
+			}
+		}()
+		go func() {
+			for range s4 {
+			}
+		}()
+		after := c.P("sibling_after", 0)
+		go func() {
+			for j := 0; j < after; j++ {
+				zzsim.Yield("h.sibling-delay")
+			}
+			zzsim.SetNode("server")
+			w.Svc.Remove(sid)
+			env.Probe("sibling-object-removed")
+		}()
 	}
 	// statistics and tracing change the path replies and events take inside
 	// an object (wrapped channels, a tracer per message)
@@ -592,7 +646,7 @@ func (c13) Check(c *core.Case, env *core.Env, res zzsim.Result, v *core.Verdict)
 		}
 		byID := map[uint32]req{}
 		for _, f := range reqs {
-			if f.Type == ref.Call && f.Service == st.w.ServiceID && (f.Action == 0 || f.Action == 1) && len(f.Payload) >= 8 {
+			if f.Type == ref.Call && f.Service == st.w.ServiceID && f.Object == 1 && (f.Action == 0 || f.Action == 1) && len(f.Payload) >= 8 {
 				rd := ref.Rd{B: f.Payload}
 				rd.U32()
 				sig := rd.U32()
@@ -633,7 +687,7 @@ func (c13) Check(c *core.Case, env *core.Env, res zzsim.Result, v *core.Verdict)
 						zeroAt[i] = c13seqOf(s2cMarks, f.End)
 					}
 				}
-			case f.Type == ref.Event && (f.Action == SigTick || f.Action == SigTock || f.Action == PropLvl || f.Action == SigNote):
+			case f.Type == ref.Event && f.Object == 1 && (f.Action == SigTick || f.Action == SigTock || f.Action == PropLvl || f.Action == SigNote):
 				i, _ := c13index(f.Action)
 				if wv, ok := c13wireVal(f); ok {
 					_, n := c13decode(wv)
